@@ -27,6 +27,8 @@ fn fuzz_plan(id: &str) -> Option<(&'static str, u64, u32)> {
         "C16" => Some(("fuzz_names", 1_000_000, 300)),
         "C07" => Some(("fuzz_dir", 600_000, 24)),
         "C11" => Some(("fuzz_history", 150_000, 420)),
+        "C05" => Some(("fuzz_conc_err", 120_000, 96)),
+        "C01" => Some(("fuzz_conc_content", 60_000, 96)),
         _ => None,
     }
 }
